@@ -16,7 +16,7 @@ def model():
         m = Model()
         for name in MODULES:
             mod = importlib.import_module('contracts.' + name)
-            for fn in ('build', 'build2', 'build3', 'build4', 'build5', 'build6', 'build7'):
+            for fn in ['build'] + ['build%d' % i for i in range(2, 20)]:
                 if hasattr(mod, fn):
                     getattr(mod, fn)(m)
         kf = os.path.join(os.path.dirname(os.path.dirname(__file__)), 'known_findings.json')
